@@ -501,7 +501,7 @@ fn cells_of<K: GGLWEToRef + GGLWEInfos>(k: &K) -> Vec<VecZnx<Vec<u8>>> {
     v
 }
 
-fn lwe_secret(n_lwe: usize, dist: Dist, seed: u64, salt: u64) -> LWESecret<Vec<u8>> {
+pub fn lwe_secret(n_lwe: usize, dist: Dist, seed: u64, salt: u64) -> LWESecret<Vec<u8>> {
     let mut sk = LWESecret::alloc(Degree(n_lwe as u32));
     fill_lwe_secret(&mut sk, dist.adapt(n_lwe), &mut Source::new(seed32(seed, salt)));
     sk
@@ -514,7 +514,7 @@ fn lwe_as_glwe(s: &[i64], n: usize) -> Vec<i64> {
     automorphism_i64(&p, -1)
 }
 
-fn arbitrary_lwe(n_lwe: usize, l: Lay, cls: VClass, seed: u64) -> LWE<Vec<u8>> {
+pub fn arbitrary_lwe(n_lwe: usize, l: Lay, cls: VClass, seed: u64) -> LWE<Vec<u8>> {
     let mut ct = LWE::alloc(Degree(n_lwe as u32), Base2K(l.b as u32), TorusPrecision((l.size * l.b) as u32));
     let cl = if matches!(cls, VClass::Zero | VClass::Sparse | VClass::Monomial) { VClass::Uniform } else { cls };
     let limbs = gen_column(cl, l.b, n_lwe + 1, l.size, seed);
